@@ -514,12 +514,18 @@ func (dsc *dataStoreCommand) addFloat(keyName string, delta float64) (value floa
 
 		var err error
 		value, err = strconv.ParseFloat(string(strBytes), 64)
-		if err != nil {
+		if err != nil || math.IsInf(value, 0) || math.IsNaN(value) {
+			// not a number, or one of the texts ParseFloat takes for infinity / not-a-number
 			valid = VALUE_WRONG_FORMAT
 			return
 		}
 
 		value += delta
+		if math.IsInf(value, 0) {
+			// the sum is too large for a double: nothing is stored
+			valid = VALUE_OVERFLOW
+			return
+		}
 		expiration = time.Time(oldSk.expiresAt)
 	} else {
 		value = delta
